@@ -18,7 +18,9 @@ def run(prop, tier):
     c = dict(TIERS[tier])
     consts = dict(c, EmitCases=True, EmitRes=sd % c["EmitMod"])
     cfg = tlc.make_cfg(consts, invariants=["CleanIsWF", "FaultBreaksWF", "VEmit"], spec="VSpec")
-    res = tlc.run("MC_HFValidity", cfg, workers=16, timeout=7200)
+    res = tlc.run("MC_HFValidity", cfg, workers=16, timeout=7200, coverage=(tier == "thorough"))
+    if tier == "thorough":
+        tlc.require_actions(res, ["VAddMod", "Inject", "Clean"], "MC_HFValidity")
     if not res.ok:
         raise Machinery("MC_HFValidity invariants fail (fault injector or WF definition is wrong):\n" + res.tail[-3000:])
     lines = open(res.cases_path).read().splitlines()
